@@ -33,21 +33,46 @@ BUDGETS = [1, 2, 3, 10]
 LEAD_RE = re.compile(r"^\s*([^\s;]+)")
 
 
+RULE_LINE = re.compile(r"^\s*([^\s{=;#][^{=;\s]*)", re.M)
+
+
+def rule_prefixes(text):
+    """Glued leading literal characters (<= 4, lower-cased) of every rule pattern in the text: the key under
+    which the matcher optimisation indexes the rule."""
+    out = set()
+    for m in re.finditer(r"#(?:sub)?ruledef[^{]*\{(.*?)\n\}", text, re.S):
+        for line in m.group(1).split("\n"):
+            if "=>" not in line:
+                continue
+            pat = line.split("=>")[0].strip()
+            lead = re.match(r"[^\s{]*", pat).group(0).lower()
+            if len(lead) >= 2:
+                out.add(lead[:4])
+    return out
+
+
 def blank_in_prefix_trigger(files):
-    """Trigger predicate of known finding KF-C08-prefix-blank: some line has a blank between
-    characters that fall inside the first four pattern characters of a rule (the prefix index is
-    queried with the glued leading token only). Over-approximated syntactically: a line whose first
-    token is shorter than 4 characters and is followed by blank + another pattern-token character."""
+    """Trigger predicate of the known findings KF-C08-prefix-blank*: some instruction line spells the indexed
+    prefix of some rule (its first <= 4 glued literal characters) with a blank inside it, e.g. `h a l t` or
+    `st x` against rules `halt` / `stx`, `a , 5` against `a,{x}`."""
+    prefixes = set()
+    texts = []
     for name, text in files.items():
         if isinstance(text, bytes):
             text = text.decode("utf8", "replace")
+        texts.append(text)
+        prefixes |= rule_prefixes(text)
+    if not prefixes:
+        return False
+    for text in texts:
         for line in text.split("\n"):
-            s = line.strip()
-            if not s or s.startswith("#") or s.startswith(";"):
+            s = line.split(";")[0].strip().lower()
+            if not s or s.startswith("#"):
                 continue
-            m = re.match(r"^([A-Za-z_][A-Za-z0-9_]*|\d\w*|[^\sA-Za-z0-9_])([ \t]+)(\S)", s)
-            if m and len(m.group(1)) < 4:
-                return True
+            glued = re.sub(r"[ \t]+", "", s)
+            for p in prefixes:
+                if glued.startswith(p) and not s.startswith(p):
+                    return True
     return False
 
 
